@@ -4,6 +4,9 @@ C13 — Record and index formats are stable, self-consistent and exactly sized.
 import Klev.Documented
 import Klev.Proofs.Codec
 import Klev.Proofs.ScanProofs
+import Klev.Proofs.StatOK
+import Klev.Proofs.MemIdxInv
+import Klev.Proofs.RecoverCheck
 namespace Klev.C13
 
 /-- The layout constants of the current source (regenerated on every run, evaluated by the
@@ -50,6 +53,102 @@ theorem item_size (p : Params) (it : Item) : ((encItem p it).length : Int) = p.s
 example : (⟨5, -3, [1, 2], []⟩ : Msg).Encodable := by
   simp [Msg.Encodable, two63, maxBody, Gen.msgMaxMessageBodySize]
 
+/-! ### Clause "Stat reports exactly the number of live messages and the total size of all segment files"
+
+`MemIdx l` ("a segment whose index is in memory has an index file") is the one extra clause
+the `Stat` theorem needs beyond `Inv`; `segFileSize p s` is the number of bytes of the files
+of one segment (log file + index file). Below: the statement on a state with `Inv` and
+`MemIdx`, then `MemIdx` as an invariant of the API, then the statement on every state
+reachable from a read-write open of an empty directory ("Stat over all C01 states"). -/
+
+/-- `reader.Stat` on one segment: it reports one segment, exactly the number of records, and
+exactly the size of the segment's two files — after rebuilding the index file if it was
+missing; base, version, records and index consistency are kept, and a segment that already
+has its index file is not changed at all. -/
+theorem segStat_spec (o : Opts) (s : Seg) (hidx : IdxOK s)
+    (hm : s.mem.isSome = true → s.idxf.isSome = true) :
+    (∃ f, (segStat o s).1.idxf = some f) ∧
+      (segStat o s).2 = some ⟨1, (s.recs.length : Int), segFileSize o.params (segStat o s).1⟩ ∧
+      (segStat o s).1.base = s.base ∧ (segStat o s).1.ver = s.ver ∧
+      (segStat o s).1.recs = s.recs ∧ IdxOK (segStat o s).1 ∧
+      ((segStat o s).1.mem.isSome = true → (segStat o s).1.idxf.isSome = true) ∧
+      (s.idxf.isSome = true → (segStat o s).1 = s) :=
+  Klev.segStat_spec o s hidx hm
+
+/-- **Stat, exactly.** On a log satisfying the invariant (and `MemIdx`): `Stat` succeeds;
+`Messages` is exactly the number of live messages; `Segments` is exactly the number of
+segments; `Size` is exactly the sum over all segments of the sizes of their files (log +
+index, every index file present afterwards); and the call only loads / rebuilds indexes
+(`Loaded`: invariant, content, options kept). -/
+theorem stat_spec (l : Log) (h : Inv l) (hmi : MemIdx l) :
+    ∃ st, (l.stat).2 = .ok st ∧ st.messages = ((abs l).live.length : Int) ∧
+      st.segments = (l.segs.length : Int) ∧
+      Loaded l (l.stat).1 ∧ MemIdx (l.stat).1 ∧ (∀ s ∈ (l.stat).1.segs, s.idxf.isSome = true) ∧
+      st.size = ((l.stat).1.segs.map (segFileSize l.opts.params)).sum :=
+  Klev.stat_spec l h hmi
+
+/-- The L0 relation of the property (`Spec.StatOK`: message count exact, at least one
+segment) follows. -/
+theorem stat_ok (l : Log) (h : Inv l) (hmi : MemIdx l) : Spec.StatOK (abs l) (l.stat).2 :=
+  Klev.stat_ok l h hmi
+
+/-- On a read-write log satisfying `Inv` the head segment satisfies the `MemIdx` clause. -/
+theorem memIdx_head (l : Log) (h : Inv l) (hro : l.opts.readonly = false) :
+    ∀ hd, l.segs.getLast? = some hd → (hd.mem.isSome = true → hd.idxf.isSome = true) :=
+  Klev.memIdx_head l h hro
+
+/-- Every `Open` except the read-only open of an empty directory establishes `MemIdx`. -/
+theorem open_memIdx (disk : List SegDisk) (oo : OpenOpts) (l : Log) (ho : Log.open disk oo = .ok l)
+    (hne : disk ≠ [] ∨ oo.opts.readonly = false) : MemIdx l :=
+  Klev.open_memIdx disk oo l ho hne
+
+/-- Every API step (Publish, Delete, Consume, Get, GC, Close/reopen with any options, index
+removal, migration, recover) keeps `MemIdx`. -/
+theorem step_memIdx (l : Log) (hne : l.segs ≠ []) (hmi : MemIdx l) (op : Op) :
+    MemIdx (stepOp l op) :=
+  Klev.step_memIdx l hne hmi op
+
+/-- `MemIdx` holds along every history. -/
+theorem run_memIdx (l : Log) (hinv : Inv l) (hmi : MemIdx l) (ops : List Op) :
+    MemIdx (runOps l ops) :=
+  Klev.run_memIdx l hinv hmi ops
+
+/-- From a read-write open of an empty directory, every reachable state satisfies `Inv` and
+`MemIdx`. -/
+theorem reach_memIdx (oo : OpenOpts) (hrw : oo.opts.readonly = false) (ops : List Op) :
+    ∃ l0, Log.open [] oo = .ok l0 ∧ Inv (runOps l0 ops) ∧ MemIdx (runOps l0 ops) :=
+  Klev.reach_memIdx oo hrw ops
+
+/-- **Stat over all C01 states.** On every state reachable from a read-write open of an empty
+directory by any history, with no hypothesis on the state: `Stat` succeeds and reports
+exactly the number of live messages, exactly the number of segments and exactly the total
+size of all segment files. -/
+theorem stat_spec_reachable (oo : OpenOpts) (hrw : oo.opts.readonly = false) (ops : List Op) :
+    ∃ l0, Log.open [] oo = .ok l0 ∧
+      ∃ st, ((runOps l0 ops).stat).2 = .ok st ∧
+        st.messages = ((abs (runOps l0 ops)).live.length : Int) ∧
+        st.segments = ((runOps l0 ops).segs.length : Int) ∧
+        Loaded (runOps l0 ops) ((runOps l0 ops).stat).1 ∧ MemIdx ((runOps l0 ops).stat).1 ∧
+        (∀ s ∈ ((runOps l0 ops).stat).1.segs, s.idxf.isSome = true) ∧
+        st.size = (((runOps l0 ops).stat).1.segs.map
+          (segFileSize (runOps l0 ops).opts.params)).sum := by
+  obtain ⟨l0, ho, hinv, hmi⟩ := Klev.reach_memIdx oo hrw ops
+  exact ⟨l0, ho, Klev.stat_spec (runOps l0 ops) hinv hmi⟩
+
+/-- The L0 relation on every such reachable state. -/
+theorem stat_ok_reachable (oo : OpenOpts) (hrw : oo.opts.readonly = false) (ops : List Op) :
+    ∃ l0, Log.open [] oo = .ok l0 ∧
+      Spec.StatOK (abs (runOps l0 ops)) ((runOps l0 ops).stat).2 := by
+  obtain ⟨l0, ho, hinv, hmi⟩ := Klev.reach_memIdx oo hrw ops
+  exact ⟨l0, ho, Klev.stat_ok (runOps l0 ops) hinv hmi⟩
+
+/-- The log-file term of `segFileSize` is a byte count: the model's `logSize` of a segment's
+records is exactly the length of the file that holds them (header + records back to back),
+in both versions. -/
+theorem logSize_is_file_length (v : Ver) (ms : List Msg) :
+    ((render v ms).length : Int) = logSize v ms :=
+  Klev.render_length_logSize v ms
+
 end Klev.C13
 
 #print axioms Klev.C13.consts_documented
@@ -58,3 +157,14 @@ end Klev.C13
 #print axioms Klev.C13.back_to_back
 #print axioms Klev.C13.item_round_trip
 #print axioms Klev.C13.item_size
+#print axioms Klev.C13.segStat_spec
+#print axioms Klev.C13.stat_spec
+#print axioms Klev.C13.stat_ok
+#print axioms Klev.C13.memIdx_head
+#print axioms Klev.C13.open_memIdx
+#print axioms Klev.C13.step_memIdx
+#print axioms Klev.C13.run_memIdx
+#print axioms Klev.C13.reach_memIdx
+#print axioms Klev.C13.stat_spec_reachable
+#print axioms Klev.C13.stat_ok_reachable
+#print axioms Klev.C13.logSize_is_file_length
